@@ -13,6 +13,7 @@
 //!     PowerOfTwo}; a subscriber holds samples across growth of the data segment.
 
 mod dynmem;
+mod loanbudget;
 mod port;
 mod rrdyn;
 
@@ -98,6 +99,7 @@ pub enum Cfg {
     Port(port::PCfg),
     Dyn(dynmem::DCfg),
     RrDyn(rrdyn::RCfg),
+    LoanBudget(loanbudget::LCfg),
 }
 
 #[derive(Clone, Debug, Serialize, Deserialize)]
@@ -114,6 +116,7 @@ pub enum Op {
     Port(port::POp),
     Dyn(dynmem::DOp),
     RrDyn(rrdyn::ROp),
+    LoanBudget(loanbudget::LOp),
 }
 
 struct Buf {
@@ -185,6 +188,7 @@ pub enum Sys {
     Port(Box<port::PSys>),
     Dyn(Box<dynmem::DSys>),
     RrDyn(Box<rrdyn::RSys>),
+    LoanBudget(Box<loanbudget::LSys>),
 }
 
 fn align_up(v: usize, a: usize) -> usize {
@@ -844,7 +848,7 @@ fn alloc_apply(s: &mut ASys, op: &Op) -> Result<(), Fail> {
             s.cursor = 0;
             s.check_memory("reset")
         }
-        Op::Port(_) | Op::Dyn(_) | Op::RrDyn(_) | Op::Setup { .. } => unreachable!(),
+        Op::Port(_) | Op::Dyn(_) | Op::RrDyn(_) | Op::LoanBudget(_) | Op::Setup { .. } => unreachable!(),
     }
 }
 
@@ -1046,11 +1050,13 @@ impl Harness for H {
         }
     }
     fn rule(&self) -> String {
-        "(a) the first operation of every sequence builds the allocator over one of the region geometries of the configuration (start misaligned by 0/1/align-1, room for 0..4 buckets plus a partial one), followed by every sequence of allocate(size in {0,1,b-1,b,b+1} x align in {1,a,2a}) / allocate_zeroed / deallocate(k-th live) / grow / shrink / reset up to the tree depth on the real PoolAllocator, FixedSizePoolAllocator<2|8>, bb BumpAllocator, OneChunkAllocator, cal shm PoolAllocator and shm BumpAllocator for every bucket layout (sizes 1..33 and 100/128/4096 x alignments 1..64 and 4096, including sizes that are not multiples of the alignment), checked after every step against an interval model: inside the region, requested alignment, requested size writable (unique byte pattern per allocation, all live patterns and the guard zones verified after every step), pairwise disjoint, success iff the model has a free bucket / enough room, documented error variant otherwise, everything allocatable again after release. (b) every sequence of loan_slice(len in {1,2,5,9}; quick tier with a dynamic strategy: {1,5,9} / {5,9})+send / receive / drop held sample on a local publish-subscribe service with [u8] or [u64] payload, initial_max_slice_len(1) and AllocationStrategy Static/BestFit/PowerOfTwo: every held sample stays byte-identical across growth of the data segment, samples received after growth are correct, Static refuses a longer loan with ExceedsMaxLoanSize. (c) every sequence of allocate(size in {c, 2c+1, 8c}) / deallocate(k-th live) / grow(k-th live, to the next larger sizes) on the real resizable shared memory DynamicMemory<PoolAllocator> (process-local and posix shared memory; chunk hint c in {8,16}, 1..2 chunks hint; Static / BestFit / PowerOfTwo) with up to 4 live chunks: live chunks pairwise disjoint in memory (also across segments), 8-byte aligned, content of every live chunk intact after every step, grown chunk keeps its content, dynamic strategies never fail, Static refuses what exceeds the hints, everything allocatable again after release. (d) request-response with a dynamically growing response segment (BestFit / PowerOfTwo, initial_max_slice_len 1): after a checked prefix (two clients have sent a request each, the server holds both active requests) every sequence of respond(client, len in {1, 9[, 40]}) / receive(client) / release(client, k) / client vanishes / drop active request / Server::receive as connection update: every response received carries exactly the written bytes, held responses stay intact, a queued response of one client survives the disappearance of the other client and the server's clean-up, nothing panics (with --prop C02 this family alone, attributed to C02). A distinct state is the canonical model state (live allocations relative to the region start / queue and held samples).".into()
+        "(a) the first operation of every sequence builds the allocator over one of the region geometries of the configuration (start misaligned by 0/1/align-1, room for 0..4 buckets plus a partial one), followed by every sequence of allocate(size in {0,1,b-1,b,b+1} x align in {1,a,2a}) / allocate_zeroed / deallocate(k-th live) / grow / shrink / reset up to the tree depth on the real PoolAllocator, FixedSizePoolAllocator<2|8>, bb BumpAllocator, OneChunkAllocator, cal shm PoolAllocator and shm BumpAllocator for every bucket layout (sizes 1..33 and 100/128/4096 x alignments 1..64 and 4096, including sizes that are not multiples of the alignment), checked after every step against an interval model: inside the region, requested alignment, requested size writable (unique byte pattern per allocation, all live patterns and the guard zones verified after every step), pairwise disjoint, success iff the model has a free bucket / enough room, documented error variant otherwise, everything allocatable again after release. (b) every sequence of loan_slice(len in {1,2,5,9}; quick tier with a dynamic strategy: {1,5,9} / {5,9})+send / receive / drop held sample on a local publish-subscribe service with [u8] or [u64] payload, initial_max_slice_len(1) and AllocationStrategy Static/BestFit/PowerOfTwo: every held sample stays byte-identical across growth of the data segment, samples received after growth are correct, Static refuses a longer loan with ExceedsMaxLoanSize. (c) every sequence of allocate(size in {c, 2c+1, 8c}) / deallocate(k-th live) / grow(k-th live, to the next larger sizes) on the real resizable shared memory DynamicMemory<PoolAllocator> (process-local and posix shared memory; chunk hint c in {8,16}, 1..2 chunks hint; Static / BestFit / PowerOfTwo) with up to 4 live chunks: live chunks pairwise disjoint in memory (also across segments), 8-byte aligned, content of every live chunk intact after every step, grown chunk keeps its content, dynamic strategies never fail, Static refuses what exceeds the hints, everything allocatable again after release. (d) request-response with a dynamically growing response segment (BestFit / PowerOfTwo, initial_max_slice_len 1): after a checked prefix (two clients have sent a request each, the server holds both active requests) every sequence of respond(client, len in {1, 9[, 40]}) / receive(client) / release(client, k) / client vanishes / drop active request / Server::receive as connection update: every response received carries exactly the written bytes, held responses stay intact, a queued response of one client survives the disappearance of the other client and the server's clean-up, nothing panics (with --prop C02 this family and (e), attributed to C02). (e) --prop C02 only: publish-subscribe with a REDUCED data segment (override_sample_preallocation: 1..3 chunks, max_loaned_samples 1..3): every sequence of loan / send k-th loan / drop k-th loan / receive / drop held sample to depth 7 (9), every prefix finished: a loan fails with ExceedsMaxLoans exactly at the loan limit, with OutOfMemory exactly when every chunk is referenced, and succeeds otherwise - in particular after earlier OutOfMemory failures and after every reference is gone. A distinct state is the canonical model state (live allocations relative to the region start / queue and held samples).".into()
     }
     fn configs(&self, tier: Tier) -> Vec<(Cfg, Plan)> {
         if self.property() == "C02" {
-            return rrdyn::configs(tier, true).into_iter().map(|(c, p)| (Cfg::RrDyn(c), p)).collect();
+            let mut v: Vec<(Cfg, Plan)> = rrdyn::configs(tier, true).into_iter().map(|(c, p)| (Cfg::RrDyn(c), p)).collect();
+            v.extend(loanbudget::configs(tier).into_iter().map(|(c, p)| (Cfg::LoanBudget(c), p)));
+            return v;
         }
         // the port-level workers run longest: queue them first
         let mut v: Vec<(Cfg, Plan)> = rrdyn::configs(tier, false).into_iter().map(|(c, p)| (Cfg::RrDyn(c), p)).collect();
@@ -1068,6 +1074,7 @@ impl Harness for H {
             Cfg::Port(c) => Ok(Sys::Port(Box::new(port::new_sys(c)?))),
             Cfg::Dyn(c) => Ok(Sys::Dyn(Box::new(dynmem::new_sys(c)?))),
             Cfg::RrDyn(c) => Ok(Sys::RrDyn(Box::new(rrdyn::new_sys(c)?))),
+            Cfg::LoanBudget(c) => Ok(Sys::LoanBudget(Box::new(loanbudget::new_sys(c)?))),
         }
     }
     fn enabled(&self, s: &Sys) -> Vec<Op> {
@@ -1079,6 +1086,7 @@ impl Harness for H {
             Sys::Port(s) => port::enabled(s).into_iter().map(Op::Port).collect(),
             Sys::Dyn(s) => dynmem::enabled(s).into_iter().map(Op::Dyn).collect(),
             Sys::RrDyn(s) => rrdyn::enabled(s).into_iter().map(Op::RrDyn).collect(),
+            Sys::LoanBudget(s) => loanbudget::enabled(s).into_iter().map(Op::LoanBudget).collect(),
         }
     }
     fn apply(&self, s: &mut Sys, op: &Op) -> Result<(), Fail> {
@@ -1093,6 +1101,7 @@ impl Harness for H {
             (Sys::Port(s), Op::Port(op)) => port::apply(s, op),
             (Sys::Dyn(s), Op::Dyn(op)) => dynmem::apply(s, op),
             (Sys::RrDyn(s), Op::RrDyn(op)) => rrdyn::apply(s, op),
+            (Sys::LoanBudget(s), Op::LoanBudget(op)) => loanbudget::apply(s, op),
             _ => unreachable!(),
         }
     }
@@ -1105,6 +1114,7 @@ impl Harness for H {
             Sys::Port(s) => port::finish(*s),
             Sys::Dyn(s) => dynmem::finish(*s),
             Sys::RrDyn(s) => rrdyn::finish(*s),
+            Sys::LoanBudget(s) => loanbudget::finish(*s),
         }
     }
     fn model_key(&self, s: &Sys) -> u64 {
@@ -1119,6 +1129,7 @@ impl Harness for H {
             Sys::Port(s) => port::model_key(s),
             Sys::Dyn(s) => dynmem::model_key(s),
             Sys::RrDyn(s) => rrdyn::model_key(s),
+            Sys::LoanBudget(s) => loanbudget::model_key(s),
         }
     }
     fn nontrivial(&self, s: &Sys) -> bool {
@@ -1127,6 +1138,7 @@ impl Harness for H {
             Sys::Port(s) => port::nontrivial(s),
             Sys::Dyn(s) => dynmem::nontrivial(s),
             Sys::RrDyn(s) => rrdyn::nontrivial(s),
+            Sys::LoanBudget(s) => loanbudget::nontrivial(s),
         }
     }
 }
